@@ -6,6 +6,10 @@ CLAIMED = {
  "C06": ("exploration", "Seeded storage-fault campaign over valid seed images (field-targeted boundary values, bit rot, lost/misdirected/replayed blocks, cuts, faults between reader calls), then every public read-side call under catch_unwind in overflow-checked and wrapping builds; aborts and stack overflows are caught as worker death.", "§5 C06", "explores the fault neighbourhood of valid images, not all byte strings", "deterministic simulation: seeded storage-fault injection + full reader API schedule, panic/abort oracle in two build profiles"),
  "C07": ("exploration", "Same campaign with per-API-call budgets on simulated stream calls and bytes (linear in the image length) and a confirmed wall-time stall detector for loops that perform no I/O; never-returning calls are caught by the supervisor heartbeat.", "§5 C07", "CPU-only loops are observed through confirmed wall time, not counted", "deterministic simulation: seeded storage-fault injection, stream-work budget oracle on the simulated disk + stall supervisor"),
  "C08": ("exploration", "Same campaign with a counting global allocator armed around every API call: single request, peak live and cumulative bytes bounded by fixed linear functions of the image length.", "§5 C08", "additive constants cover width-bounded allocations; fault neighbourhood only", "deterministic simulation: seeded storage-fault injection, allocator seam (counting GlobalAlloc) oracle"),
+ "C10": ("fault_enumeration", "For each explored scenario every stream-call index x every legal fault kind is enumerated: one clean run records the calls, then one re-run per (k, fault) with exactly that fault; hard faults must surface as Error::IoError from the API call in progress, short/interrupted transfers and whole-run chunkings must be invisible. Exhaustive over (k, fault) per scenario, seeded over scenarios.", "§5 C10", "judges the API call in progress only; scenarios are seeded samples", "deterministic simulation: exhaustive single-fault enumeration over recorded stream calls of seeded scenarios"),
+ "C11": ("fault_enumeration", "For each seed image every cut position (crash point) is enumerated; the prefix is opened with its own length and every sample it returns is compared with the complete file; panics and stream-work budget overruns are violations. Exhaustive over cuts per image (<= 64 KiB), seeded over images.", "§5 C11", "baseline = the library's reading of the intact image; is_sync not compared", "deterministic simulation: exhaustive crash-point (truncation) enumeration over seeded images, prefix-consistency oracle"),
+ "C13": ("exploration", "Structured boundary family with seeded jitter on a sparse simulated disk: > 4 GiB outputs, start positions around 2^32 / 2^40, durations crossing 2^32; independent-parser relations plus reader offsets and read-back.", "§5 C13", "large samples are constant-byte runs; independent parser trusted", "deterministic simulation: sparse-disk boundary histories (storage seam makes >4 GiB outputs reachable), model + independent-parser oracles"),
+ "C15": ("exploration", "Seeded reader call schedules with transient stream faults on one long-lived reader, compared call by call with fresh-reader answers; double muxing and double parsing compared for equality.", "§5 C15", "fresh-reader answer is the reference (relative property)", "deterministic simulation: seeded API-call schedules with transient faults vs fresh-reader baseline; repeated-run determinism"),
  "C14": ("exploration", "Seeded search over documented-domain Mp4Config/TrackConfig values plus sample histories, muxed and read back through every accessor of the real reader on the simulated disk.", "§5 C14", "durations compared with a one-tick tolerance; AAC object types >= 32 are a known finding", "deterministic simulation: seeded configuration+history search, accessor read-back vs configuration"),
  "C17": ("exploration", "Seeded hostile histories over the full value range of every public muxer argument with injected hard stream faults, each call under catch_unwind in overflow-checked and wrapping builds; worker death is caught by the supervisor.", "§5 C17", "panics are what catch_unwind or the supervisor can see; other muxer properties applied only inside their domain", "deterministic simulation: hostile API-history search with injected stream faults, panic/abort oracle in two build profiles"),
  "C02": ("exploration", "Same history space, judged only by an independent ISO-BMFF parser evaluating the structural and table relations on the output bytes.", "§5 C02", "independent parser `indep` trusted", "deterministic simulation: seeded API-history search, independent-parser oracle on the simulated disk image"),
@@ -19,7 +23,7 @@ NA = {
  "C16": "finite total functions decided by exhaustive enumeration of their domains: proof by exhaustion, the opposite of seeded search",
  "C18": "pure function of the udta/meta/ilst bytes",
 }
-PENDING = {k: "check under construction in this round (DESIGN.md §5); not claimed until its machinery runs clean" for k in ["C10","C11","C13","C15"]}
+PENDING = {}
 import sys
 root = "/verif"
 checks = []
